@@ -33,6 +33,13 @@ def main():
         tag = "r4m"
     patch = os.path.join(src, "m%s.diff" % n)
     demo = os.path.join(src, "m%s_demo.rs" % n)
+    if "--round5" in sys.argv:
+        # round 5: one sub-agent per pair of properties, files named <PID>-m<n>.diff in /tmp/w5-<K>-out
+        k = sys.argv[sys.argv.index("--round5") + 1]
+        src = "/tmp/w5-%s-out" % k
+        tag = "r5m"
+        patch = os.path.join(src, "%s-m%s.diff" % (pid, n))
+        demo = os.path.join(src, "%s-m%s_demo.rs" % (pid, n))
     if "--demo" in sys.argv:
         demo = sys.argv[sys.argv.index("--demo") + 1]
     if not os.path.exists(WT):
@@ -71,7 +78,7 @@ def main():
     shutil.copy(demo, os.path.join(d, "demo.rs"))
     needs = sys.argv[sys.argv.index("--needs") + 1] if "--needs" in sys.argv else ""
     what = sys.argv[sys.argv.index("--what") + 1] if "--what" in sys.argv else ""
-    meta = {"property": pid, "origin": "independent sub-agent given only the property text and a scratch worktree" + ("; round 4 (process-level properties only, after all earlier strengthening)" if tag == "r4m" else "") + ("; round 3 (after the size ladders and the other round-2 strengthening were in place)" if tag == "r3m" else "") + ("; round 2: additionally told, in generic terms, that the checker is a corpus + random differential tester with laws, and asked for changes such a tester could miss" if tag == "r2m" else ""),
+    meta = {"property": pid, "origin": "independent sub-agent given only the property text and a scratch worktree" + ("; round 4 (process-level properties only, after all earlier strengthening)" if tag == "r4m" else "") + ("; round 5: adversarial - additionally told, in generic terms, what the strengthened tester drives (corpora, size ladders, nesting contexts, laws) and asked for changes it could still miss" if tag == "r5m" else "") + ("; round 3 (after the size ladders and the other round-2 strengthening were in place)" if tag == "r3m" else "") + ("; round 2: additionally told, in generic terms, that the checker is a corpus + random differential tester with laws, and asked for changes such a tester could miss" if tag == "r2m" else ""),
             "what": what, "needs_to_manifest": needs,
             "confirmed": {"baseline_tests_with_patch": "%d passed (cargo test --workspace --no-fail-fast --offline)" % passed,
                           "demo_with_patch": (wl[-1] if wl else "failed to build/run") , "demo_without_patch": ol[-1] if ol else "",
